@@ -83,7 +83,6 @@ func constValue(c *ssa.Const) value {
 	panic(fmt.Sprintf("constValue: %s", c))
 }
 
-
 // asInt64 converts x, which must be an integer, to an int64.
 //
 // Callers that need a value directly usable as an int should combine this with fitsInt().
@@ -249,8 +248,6 @@ func zero(t types.Type) value {
 	}
 	panic(fmt.Sprint("zero: unexpected ", t))
 }
-
-
 
 // binop implements all arithmetic and logical binary operators for
 // numeric datatypes and strings.  Both operands must have identical
@@ -721,12 +718,6 @@ func concreteBinop(op token.Token, t types.Type, x, y value) value {
 	panic(fmt.Sprintf("invalid binary op: %T %s %T", x, op, y))
 }
 
-
-
-
-
-
-
 // widen widens a basic typed value x to the widest type of its
 // category, one of:
 //
@@ -1015,7 +1006,6 @@ func sliceToArrayPointer(t_dst, t_src types.Type, x value) value {
 
 	panic(fmt.Sprintf("unsupported conversion: %s  -> %s, dynamic type %T", t_src, t_dst, x))
 }
-
 
 func foldLeft(op func(value, value) value, args []value) value {
 	x := args[0]
